@@ -29,7 +29,9 @@ class Wrap(Contract):
     def inputs(self, cfg, D):
         n = nelem(cfg['shape'])
         if cfg['carrier'] == 'objint':
-            return {'x': [D.int('x%d' % i) for i in range(n)]}            # unbounded Python ints
+            xs = [D.int('x%d' % i) for i in range(n)]            # unbounded Python ints
+            assume_no_int64_uint64_mix(D, xs)
+            return {'x': xs}
         if cfg['carrier'] == 'i64':
             return {'x': [D.int('x%d' % i, -2**63, 2**63 - 1) for i in range(n)]}
         # integral doubles within the exactly-representable range (what _round hands over)
